@@ -53,6 +53,13 @@ def register(S):
                                         "self.sock.closed == old(self.sock.closed)",
                                         "self.sock.shut_attempted == old(self.sock.shut_attempted)"]}})
     S.contract(F + "SocketStream.write", params={"self": "obj:SocketStream", "data": "bytes"},
+               dispatch=[("self.sock is ClosedFile", "closed"), (None, "default")],
+               behaviours={"closed": dict(init={"self.sock": "ClosedFile"},
+                                          # writing to a closed stream: EOFError (nothing to write is a no-op)
+                                          returns_when=["len(data) == 0"],
+                                          raises={"EOFError": {"state": ["self.sock is ClosedFile"], "props": ["C11", "C08"],
+                                                               "modifies": []}},
+                                          modifies=[], loops={0: {"invariant": ["self.sock is ClosedFile", "data == old(data)"]}})},
                requires=["self.sock is not ClosedFile", "not self.sock.failed"],
                ensures={"all_bytes_in_order": ("old(self.sock).outbuf == old(self.sock.outbuf) + data", P5),
                         "still_open": ("self.sock is old(self.sock)", P5)},
